@@ -8,7 +8,8 @@ import MdVerif.Props.C09
 #print axioms MdVerif.Normalize.C09_ctl_insert
 #print axioms MdVerif.Normalize.C09_tab
 #print axioms MdVerif.Normalize.C09_ws_line
-#print axioms MdVerif.Normalize.C09_first_line_counterexample
+#print axioms MdVerif.Normalize.C09_ws_first_line
+#print axioms MdVerif.Normalize.C09_first_line_example
 #print axioms MdVerif.Normalize.C09_no_ctl_out
 #print axioms MdVerif.Normalize.C09_no_cr_out
 #print axioms MdVerif.Normalize.C09_out_chars
